@@ -477,6 +477,10 @@ pub fn run(ctx: &Ctx, which: Which) -> Report {
             if q.tags.contains(&"composed") && which != Which::C03 && gi >= 2 {
                 continue;
             }
+            // the two-column aggregate pairs are about the reassembly of the aggregates (C09): one point for C01 quick
+            if which == Which::C01 && ctx.tier == Tier::Quick && q.tags.contains(&"two-columns") && gi >= 1 {
+                continue;
+            }
             let id = format!("{} [{}]", q.sql, name);
             if !ctx.wants(&id) {
                 continue;
@@ -527,7 +531,6 @@ pub fn run(ctx: &Ctx, which: Which) -> Report {
         }
         head.rule = "accepted DP programs (1-3 aggregates, distinct splits, grouped by public / private / mixed keys, joins along the privacy-unit path, sub-queries) x a grid of DpParameters; the mechanisms actually present are read from the rewritten IR (sigma and clipping bound C per noised column, tau / sigma_count / Cu per threshold filter) and checked against closed forms written from the definitions: (i) every Gaussian column is matched by a recorded Gaussian entry with multiplier <= sigma/C, every threshold by an (epsilon, delta) entry >= the one solved from the literals; (ii) per query, some allocation exists with epsilon_used + sum epsilon_i <= epsilon and delta_used + sum delta_i <= delta under the classical calibration (the cheapest allocation is computed by nested bisection). non-trivial = configurations with at least one mechanism".into();
         head.assumptions = vec!["the IR reader (dpir.rs) identifies mechanisms by expression shape; C01 binds it to behaviour".into()];
-        head.sample(json!({"query": "SELECT user_id, sum(amount) AS s FROM orders GROUP BY user_id", "mechanisms": "Gaussian on _SUM_amount (sigma, C) + threshold on noisy COUNT DISTINCT units (sigma_count, tau, Cu)"}));
         return head;
     }
     // group configs by table set for the database enumeration
@@ -574,12 +577,10 @@ pub fn run(ctx: &Ctx, which: Which) -> Report {
                 "ownership of a row is computed by the harness from its own row model of the foreign-key path".into(),
                 "sigma and C are read from the IR by expression shape; the set of noised columns is bound to behaviour (columns that move under a constant random script)".into(),
             ];
-            head.sample(json!({"config": "SELECT city, sum(age) AS s FROM users GROUP BY city", "database": {"users": ["(1,18,'A')", "(2,20,'A')"]}, "unit": 1, "column": "_SUM_age", "norm": 18.0, "C": 20.0}));
         }
         Which::C09 => {
             head.rule = "DP aggregation programs over public-valued keys or ungrouped x DpParameters x ALL database instances, filtered by the precondition evaluated by the harness (every unit's per-group contribution norm <= C for every noised column, so clipping is inactive) and executed with the all-default random script (every noise draw exactly 0); oracle: on the groups of the original query the DP rewriting returns the same COUNT, SUM, AVG (rel. 1e-9), VAR/STD equal to the sample or the population statistic; extra rows only for public key values with empty groups. non-trivial = (config, database) pairs satisfying the precondition with a non-empty result".into();
             head.assumptions = vec!["SUM/AVG of an empty group compare equal whether spelled NULL or 0".into()];
-            head.sample(json!({"config": "SELECT city, count(*) AS c, avg(age) AS a FROM users GROUP BY city", "database": {"users": ["(1,18,'A')", "(2,20,'B')"]}}));
         }
         _ => {}
     }
@@ -687,6 +688,10 @@ fn check_c01(c: &Compiled, plan: &crate::sqlite::Plan, e: &Engine, world: &World
             let norm = l2_diff(&va, &vb);
             if norm > 0.0 {
                 r.distinct_nontrivial += 1;
+                if r.samples.is_empty() && cbound > 0.0 && norm >= 0.5 * cbound {
+                    r.sample(json!({"query": c.query.sql, "dp_parameters": c.dp_name, "database": show_db(db), "removed_unit": u, "noised_column": n.column, "sigma": n.sigma, "clip_bound_C": cbound,
+                        "pre_noise_on_D": ta.show(), "pre_noise_on_D_minus_u": tb.show(), "l2_change": norm}));
+                }
             }
             if std::env::var("QV_DEBUG_C01").is_ok() && norm > 0.0 {
                 eprintln!("C01 {} col={} sigma={} clip_ir={:?} cbound={} norm={} recorded={:?} input={}.{}", c.dp_name, n.column, n.sigma, n.clip, cbound, norm, c.event_gaussians, n.input_node, n.input_column);
@@ -767,6 +772,13 @@ fn check_c03(c: &Compiled, r: &mut Report) {
         return;
     }
     r.distinct_nontrivial += 1;
+    if r.samples.is_empty() && !thresholds.is_empty() && !gauss.is_empty() {
+        r.sample(json!({"query": c.query.sql, "dp_parameters": c.dp_name,
+            "gaussian_columns(sigma, C)": gauss.iter().map(|n| json!([n.column, n.sigma, n.clip])).collect::<Vec<_>>(),
+            "thresholds(column, tau)": thresholds.iter().map(|t| json!([t.column, t.tau])).collect::<Vec<_>>(),
+            "contribution_limits": c.ir.limits.iter().map(|l| l.cu).collect::<Vec<_>>(),
+            "recorded_gaussian_multipliers": c.event_gaussians, "recorded_epsilon_delta": c.event_eps_delta}));
+    }
     if !thresholds.is_empty() {
         r.reach("reach", "thresholding-present");
     }
@@ -939,6 +951,9 @@ fn check_c09(c: &Compiled, plan: &crate::sqlite::Plan, e: &Engine, world: &World
     r.add_count("precondition_satisfied", 1);
     if !orig.rows.is_empty() {
         r.distinct_nontrivial += 1;
+        if r.samples.is_empty() && orig.rows.len() >= 2 {
+            r.sample(json!({"query": c.query.sql, "dp_parameters": c.dp_name, "database": show_db(db), "original_result": orig.show(), "dp_result_with_zero_noise": dp.show()}));
+        }
     }
     if dp.cols.len() != orig.cols.len() {
         r.violation(c09_sig("column-count", c), &case_id, json!({"query": c.query.sql, "original": orig.show(), "dp": dp.show()}));
